@@ -364,6 +364,17 @@ def _falls_through(stmts):
     """Condition (True / False / an expression AST) under which control runs off the end of the block."""
     if not stmts:
         return True
+    if len(stmts) > 1:
+        # every statement of the block has to be got past (guard clauses in front of the last statement count too)
+        acc = True
+        for st in stmts:
+            f = _falls_through([st])
+            if f is False:
+                return False
+            if f is True:
+                continue
+            acc = f if acc is True else ast.copy_location(ast.BoolOp(op=ast.And(), values=[acc, f]), st)
+        return acc
     last = stmts[-1]
     if isinstance(last, (ast.Return, ast.Raise, ast.Continue, ast.Break)):
         return False
